@@ -217,17 +217,24 @@ def main(tier):
                 break
     if nclients < 10000 and not run.violations and not run.capped:
         raise common.HarnessError('vacuous: %d client traces' % nclients)
+    # the "OK from a named service" criterion under a service table that changes while the client waits (breadth-first over reload points):
+    # an OK the client got from a service that has left must not satisfy a rule that names the service which took its place
+    from . import pcommon
+    rs = pcommon.extra_search(run, pcommon.reload_search(tier, 'slot'), ('C05.wrong-class',), retag='C11.class-after-reload') if not run.out_of_time(60) else None
     cov = {'evaluations': nclients, 'distinct_nontrivial': nclients,
            'rule': 'one evaluation = one (rule table, client attribute vector) pair run through the real daemon started on that table; all pairs are distinct; every one reaches the rule scan '
                    '(the client is accepted and the class field of its verdict is compared with the reference)',
            'samples': [tstr(tables[i][0]) for i in (0, 77, len(tables) // 2, len(tables) - 1)] + [' | '.join(client_lines(_G['clients'][i])) for i in (0, 100)],
-           'exhaustive': not run.capped, 'tables': ntab, 'clients_per_table': '%d (full) or %d (one per truth assignment of the five criteria)' % (len(_G['clients']), len(_G['core_clients'])), 'rules_in_universe': len(R)}
+           'exhaustive': not run.capped, 'tables': ntab, 'clients_per_table': '%d (full) or %d (one per truth assignment of the five criteria)' % (len(_G['clients']), len(_G['core_clients'])), 'rules_in_universe': len(R), 'reload_search': rs}
     return run.finish(cov, assumptions=['criterion values are fixed per criterion (the client attributes decide the match); mask syntax variety is C13\'s',
                                         'glob semantics are those of libc fnmatch without flags; the reference uses Python fnmatchcase on patterns made of literals, ?, * and one bracket set'])
 
 
 def replay(obj):
     r = obj['replay']
+    if r.get('engine') == 'E1':
+        from . import pcommon
+        return pcommon.replay(obj)
     b = build.build()
     _G['b'] = b
     table = [(n, kv) for n, kv in r['rules']]
